@@ -1,13 +1,13 @@
 SPECIFICATION Spec
 CONSTANTS
   MaxNodes = 4
-  Widths = {2,3}
-  Dim = 2
+  Widths = {2}
+  Dim = 1
   C0 = 2
   Sp0 = 2
-  AllowExcl = TRUE
-  AllowCat3 = TRUE
-  AllowReuse = FALSE
+  AllowExcl = FALSE
+  AllowCat3 = FALSE
+  AllowReuse = TRUE
   AllowFindings = FALSE
 INVARIANT InvToldIsActual
 INVARIANT InvAddAligned
